@@ -177,6 +177,14 @@ def run_engine_batch(ctx, args, tag):
         stats = {}
     for k, v in stats.items():
         ctx.count("harness." + k, v)
+    if stats.get("panic"):
+        crashed = [json.loads(l) for l in open(os.path.join(d, "engine.inputs.jsonl")) if "skipped: panic:" in l]
+        for c in crashed[:2]:
+            if ctx.pid == "C08":
+                ctx.violation("gopatch panics while parsing or compiling this patch: " + c.get("note", "")[-200:],
+                              {"input": {"patches": c.get("patches"), "src": c.get("src")}})
+            else:
+                ctx.broken("harness", "the implementation panicked on a generated case (see property C08): " + c.get("note", "")[-300:])
     if stats.get("hang"):
         hung = [json.loads(l) for l in open(os.path.join(d, "engine.inputs.jsonl")) if "hang: the case" in l]
         for c in hung[:2]:
@@ -965,7 +973,16 @@ def c14(ctx):
     n = 25 if ctx.tier == "quick" else 600
     cases = gen_cases(ctx, "mix", 150 if ctx.tier == "quick" else 2000, ctx.seed)
     scen = make_scenarios(ctx, cases, n, rng, {"unparseable", "generated", "odd"})
-    optsets = [["print"], ["diff"], [], ["print", "sg"]]
+    # neighbours whose rewrite is rejected (not valid Go) or fails, before and after files that are patched fine
+    for k, (mp, ms) in enumerate(MISFIT):
+        good = "package a\n\nfunc ok() {\n\tz := foo(7)\n\t_ = z\n}\n"
+        for pos, names in enumerate((("a_bad.go", "b_good.go", "c_good.go"), ("a_good.go", "m_bad.go", "z_good.go"), ("a_good.go", "b_good.go", "z_bad.go"))):
+            files = {nm: (ms if "bad" in nm else good.replace("ok()", f"ok{j}()")) for j, nm in enumerate(names)}
+            scen.append(Scenario(f"misfit{k}_{pos}", [mp], files, "rejected rewrite next to good files"))
+    for pos, names in enumerate((("a_bad.go", "b_good.go"), ("a_good.go", "z_bad.go"))):
+        files = {nm: (REPLACE_ERR[1] if "bad" in nm else "package a\n\nfunc ok() { foo(1) }\n") for nm in names}
+        scen.append(Scenario(f"rerr_{pos}", [REPLACE_ERR[0].replace("+bar.x", "+bar.x")], files, "rewrite error next to good files"))
+    optsets = [["print"], ["diff"], [], ["print", "sg"], ["si"], ["print", "si"]]
     def one(sc):
         out = []
         root, pargs = setup_scenario(ctx, sc)
@@ -1103,6 +1120,31 @@ def c16(ctx):
             ctx.violation("unreadable target: the run must report a.go (parse) and b.go (permission), still patch c.go, and exit non-zero; "
                           f"got exit {code}, stderr {e.strip()[:300]!r}, stdout has bar(3)={('bar(3)' in so)}",
                           {"input": {"files": ["a.go unparseable", "b.go mode 000", "c.go foo(3)"], "run": "setpriv --reuid=65534 gopatch -p p.patch --print-only ."}})
+    # a write that fails in the middle of a run with other failures before it and work after it
+    if shutil.which("prlimit"):
+        root = ctx.scratch("fsize-multi")
+        big = "package a\n\nfunc big() {\n" + "".join(f"\tfoo({i})\n" for i in range(600)) + "}\n"
+        small = "package a\n\nfunc small() { foo(1) }\n"
+        cl.write_tree(root, {"src/a_broken.go": UNPARSEABLE, "src/b_big.go": big, "src/c_small.go": small, "src/m_rewrite.go": REPLACE_ERR[1].replace("foo(g(1))", "qux(g(1))"),
+                             "p.patch": "@@\nvar x expression\n@@\n-foo(x)\n+barbaz(x)\n\n@@\nvar x expression\n@@\n-qux(x)\n+bar.x\n"})
+        code, out, err = cl.gopatch(ctx.gopatch, root, ["-p", "p.patch", "src"], prefix=["prlimit", "--fsize=2048"])
+        e = err.decode("utf-8", "replace")
+        ctx.evaluations += 1
+        ctx.nontrivial.add("fsize-multi")
+        got = {n: open(os.path.join(root, "src", n)).read() for n in ("a_broken.go", "b_big.go", "c_small.go", "m_rewrite.go")}
+        probs = []
+        if code == 0:
+            probs.append("exit status 0 although three files could not be processed")
+        for n in ("a_broken.go", "b_big.go", "m_rewrite.go"):
+            if n not in e:
+                probs.append(f"stderr does not name {n}")
+        if got["b_big.go"] != big:
+            probs.append("b_big.go (write failed) does not hold its original bytes")
+        if got["c_small.go"] != small.replace("foo(", "barbaz(") and "barbaz(1)" not in got["c_small.go"]:
+            probs.append("c_small.go, processed after the failed write, was not patched")
+        if probs:
+            ctx.violation("; ".join(probs), {"fault": "fsize-multi", "input": {"files": ["src/a_broken.go (unparseable)", "src/b_big.go (600 calls, write exceeds the limit)", "src/c_small.go", "src/m_rewrite.go (rewrite error)"],
+                                                                              "run": "prlimit --fsize=2048 gopatch -p p.patch src"}, "stderr": e[-800:]})
     # write cut short
     if shutil.which("prlimit"):
         root = ctx.scratch("fsize")
@@ -1624,6 +1666,8 @@ def c08(ctx):
         cases.append({"id": f"truncp{k}", "patches": ["@@\n@@\n-foo(1)\n+" + t[1:] + "\n"], "src": "package a\n\nfunc f() { foo(1) }\n"})
     for k, (p, s) in enumerate(ILL_TYPED):
         cases.append({"id": f"ill{k}", "patches": [p], "src": s})
+    for i, c in enumerate(base):
+        cases.append({"id": f"gen{i}", "patches": c["patches"], "src": c["src"]})
     nb = 40 if ctx.tier == "quick" else 1500
     for i, c in enumerate(base[:nb]):
         p = c["patches"][0]
@@ -1993,6 +2037,51 @@ def inject_comments(rng, src):
     hdr = rng.choice(["", "// Copyright header.\n// Second line.\n\n", "//go:build linux\n\n", "// Package doc comment.\n", "/* block header */\n\n// Package p does things.\n"])
     return hdr + text
 
+IMPORT_BLOCK = re.compile(r'^import \((.*?)^\)\n', re.S | re.M)
+IMPORT_LINE = re.compile(r'^import ([^(\n]+)\n', re.M)
+
+def split_source(src):
+    """-> (package name, import specs, rest) of a generated source"""
+    m = re.match(r"package (\w+)\n", src)
+    if not m:
+        return None
+    rest = src[m.end():]
+    specs = []
+    for b in IMPORT_BLOCK.finditer(rest):
+        specs += [l.strip() for l in b.group(1).split("\n") if l.strip()]
+    rest = IMPORT_BLOCK.sub("", rest)
+    specs += [l.group(1).strip() for l in IMPORT_LINE.finditer(rest)]
+    rest = IMPORT_LINE.sub("", rest)
+    return m.group(1), specs, rest.lstrip("\n")
+
+def merge_cases(rng, a, b):
+    """one file containing the code of both cases and a patch list applying both patches"""
+    sa, sb = split_source(a["src"]), split_source(b["src"])
+    if not sa or not sb:
+        return None
+    specs = []
+    paths = set()
+    for sp in sa[1] + sb[1]:
+        pth = re.search(r'"([^"]+)"', sp)
+        if pth and pth.group(1) not in paths:
+            paths.add(pth.group(1))
+            specs.append(sp)
+    imp = ""
+    if specs:
+        style = rng.randrange(3)
+        if style == 0:
+            imp = "".join(f"import {sp}\n" for sp in specs) + "\n"      # every import its own declaration
+        else:
+            imp = "import (\n" + "".join(f"\t{sp}\n" for sp in specs) + ")\n\n"
+    body_b = re.sub(r"\bfn(\d+)\b", r"gn\1", sb[2])
+    body_b = re.sub(r"\bother(\d+)\b", r"another\1", body_b)
+    body_b = re.sub(r"\btop(\d+)\b", r"bottom\1", body_b)
+    src = f"package {sa[0]}\n\n" + imp + sa[2].rstrip("\n") + "\n\n" + body_b
+    pa = [p for p in a["patches"]]
+    pb = [re.sub(r"^([ -])package \w+\n", "", p, flags=re.M) for p in b["patches"]]
+    order = [pa + pb, pb + pa][rng.randrange(2)]
+    return {"patches": order, "src": src}
+
 @prop("C17")
 def c17(ctx):
     ctx.level = "proof"
@@ -2012,6 +2101,17 @@ def c17(ctx):
         if src is None:
             continue
         jobs.append((f"c{i}", c["patches"], src))
+    # several changes on one file: two independent patches (the second often edits imports) on the merged code
+    imp_cases = [c for c in gen_cases(ctx, "c11", n // 2, ctx.seed + 3, golden=False) if len(c.get("patches", [])) == 1]
+    for i in range(min(len(imp_cases), n // 2)):
+        m = merge_cases(rng, cases[rng.randrange(len(cases))], imp_cases[i])
+        if not m or not any(len(p) for p in m["patches"]):
+            continue
+        src = inject_comments(rng, m["src"])
+        if src is None:
+            continue
+        jobs.append((f"m{i}", m["patches"], src))
+    ctx.count("multi_change_jobs", sum(1 for j in jobs if j[0].startswith("m")))
     def one(job):
         cid, patches, src = job
         root = ctx.scratch("c17")
